@@ -125,6 +125,14 @@ Proof.
   apply skip_cond in ESkip. destruct ESkip as (A & B & C). repeat split; auto. exists F. auto.
 Qed.
 
+(* a skip needs a non-empty input set: tasks without any (matching) file dependency always run *)
+Lemma skip_needs_inputs m s t tr ex r m' s' : iter force b m s t = ICont _ tr ex r m' s' -> r_skipped r = true ->
+  exists F, inputs_of (files _ s) t = Some F /\ F <> [].
+Proof.
+  intros E Sk. destruct (iter_skip m s t tr ex r m' s' E Sk) as (_ & _ & _ & _ & _ & F & A & B & _).
+  exact (ex_intro _ F (conj A B)).
+Qed.
+
 (* a task that ran *)
 Lemma iter_ran m s t tr ex r m' s' : iter force b m s t = ICont _ tr ex r m' s' -> r_skipped r = false ->
   ex = [tname t] /\
